@@ -396,13 +396,12 @@ fn mode_long(dir: &str, thorough: bool) {
             let mut rng = Sm64::new(seed_from_env() ^ 0xC12);
             let hexd: Vec<char> = "0123456789abcdefABCDEF".chars().collect();
             v.push((0..64).map(|_| *rng.pick(&hexd)).collect());
-            v.push("f".repeat(64).chars().collect());
         }
         v
     };
     let pair_syms: Vec<(&str, &str)> = if thorough {
         let mut v: Vec<(&str, &str)> = NONDIGITS.iter().map(|&s| (s, s)).collect();
-        v.extend([("+", "e2"), ("e2", "e3"), ("e3", "+"), ("#", "+")]);
+        v.extend([("+", "e2"), ("e3", "+")]);
         v
     } else {
         vec![("+", "+"), ("e2", "e2")]
